@@ -500,6 +500,7 @@ class C04(Prop):
     title = 'Generated Fortran respects free-form line limits without altering tokens'
     model_modules = ['LokiModel.C04.Model']
     props_module = 'LokiModel.Props.C04'
+    findings_module = 'LokiModel.Findings.C04'
     driver = 'Drivers/C04.lean'
     theorems = ['C04_patterns_pinned', 'C04_style_widths', 'C04_chunks_lossless', 'C04_width', 'C04_width_ok',
                 'C04_str_item', 'C04_str_item_terminates', 'C04_chunk_bounds_outside_literals', 'C04_tokens',
@@ -586,13 +587,13 @@ class C04(Prop):
 
     # ---- inputs
     def gen(self, rng, tier):
-        n = {'quick': 1, 'thorough': 12, 'search': 5}.get(tier, 1)
+        n = {'quick': 1, 'thorough': 15, 'search': 6}.get(tier, 1)
 
         def case(req, stream):
             return Case(req, stream=stream, nontrivial=self._wraps(req))
 
         # (a) synthetic flat lists
-        for _ in range(220 * n):
+        for _ in range(150 * n):
             W = rng.choice([20, 24, 30, 40, 50, 60, 72, 80, 90, 100, 132, rng.randint(20, 132)])
             cont = rng.choice(CONTS)
             kinds = rng.choice([None, ['expr'], ['lit'], ['lit', 'expr'], ['kw', 'expr', 'lit'], ['long', 'expr']])
@@ -602,17 +603,17 @@ class C04(Prop):
                 items = [[A('s'), i[1] + rng.choice([' ', ', ', ' + ', ')', '('])] for i in items]
             yield case([A('str'), W, cont, [A('j'), sep, rng.random() < 0.8] + items], 'flat')
         # one very long literal / expression as the only item after a short head (the assignment shape)
-        for _ in range(60 * n):
+        for _ in range(50 * n):
             W = rng.choice([30, 40, 60, 80, 132])
             item = rand_literal(rng, rng.choice([20, 40, 60])) if rng.random() < 0.6 else rand_expr(rng, 6)
             yield case([A('str'), W, rng.choice(CONTS[:4]), [A('j'), '', True, [A('s'), '  '], [A('s'), 'msg'], [A('s'), ' = '],
                                                               [A('s'), item]]], 'long-item')
         # (a) nested lists, __add__/__radd__
-        for _ in range(200 * n):
+        for _ in range(140 * n):
             W = rng.choice([20, 30, 40, 60, 80, 100, 132, rng.randint(20, 132)])
             yield case([A('str'), W, rng.choice(CONTS), rand_tree(rng, rng.choice([1, 1, 1, 1, 2, 2, 3]))], 'nested')
         # the statement shape fgen produces: indent, keyword, '(', argument list, ')'
-        for _ in range(120 * n):
+        for _ in range(80 * n):
             W = rng.choice([40, 60, 80, 100, 132])
             depth = rng.choice([0, 2, 4, 8, 30])
             args = [A('j'), ', ', True] + rand_flat(rng, rng.randint(1, 25), ['expr', 'kw', 'lit', 'expr'])
@@ -623,14 +624,14 @@ class C04(Prop):
             yield case([A('fmt'), W, ' &\n{}& ', depth, items, comment, rng.random() < 0.1, rng.random() < 0.1,
                         rng.random() < 0.85], 'format_line')
         # edge cases: tiny widths, odd continuation strings, empty items
-        for _ in range(100 * n):
+        for _ in range(60 * n):
             W = rng.randint(1, 19)
             cont = rng.choice(CONTS + ['', 'xx', '\n\n', 'a\nb\nc', ' &\n' + ' ' * rng.randint(0, 25) + '& ', '~~\n'])
             t = rand_tree(rng, rng.choice([0, 1, 2])) if rng.random() < 0.6 else \
                 [A('j'), rng.choice(SEPS), True] + rand_flat(rng, None, ['blank', 'expr', 'blank', 'lit'])
             yield case([A('str'), W, cont, t], 'edge')
         # chunker alone
-        for _ in range(80 * n):
+        for _ in range(60 * n):
             s = rng.choice([rand_expr(rng, 3), rand_literal(rng), rand_expr(rng, 1) + ' ' + rand_literal(rng) + rand_expr(rng, 1),
                             ''.join(rng.choice('ab \'")%(,') for _ in range(rng.randint(0, 14)))])
             yield Case([A('chunks'), s], stream='chunks', nontrivial=True)
